@@ -78,6 +78,18 @@ func (p *pathRun) plainOf(ct, N *smt.Term) (*smt.Term, bool) {
 	return nil, false
 }
 
+// plainRed is the plaintext of a homomorphic result: reduced mod N, except under
+// Summarise("mta-no-wrap"), where the protocol-level harness relies on what C13 decides for
+// the real MtA code (with N > q^8 the plaintext a*b + beta' never reaches N) and keeps the
+// unreduced integer, so that the congruences mod q stay polynomial identities.
+func (p *pathRun) plainRed(m, N *smt.Term) *smt.Term {
+	if p.summ["mta-no-wrap"] {
+		p.res.Assumes["mta-plaintext-does-not-wrap (C13)"]++
+		return m
+	}
+	return p.ctx.Mod(m, N)
+}
+
 func (p *pathRun) drawSync(fr *frame, rd value, n int) {
 	// keep the reader in step with the real prover (n draws), values unconstrained
 	for i := 0; i < n; i++ {
@@ -154,7 +166,7 @@ func init() {
 			m = c.App("pdec", smt.Int, N, ct)
 			p.axiom("ideal-decrypt-range", c.And(c.Ge(m, c.IntC64(0)), c.Lt(m, N)))
 		}
-		return tuple{p.newBig(p.pct(N, c.Mod(c.Mul(k, m), N))), iface{}}
+		return tuple{p.newBig(p.pct(N, p.plainRed(c.Mul(k, m), N))), iface{}}
 	}
 	optSummaries["(*"+pailPkg+".PublicKey).HomoAdd"] = func(fr *frame, a []value) value {
 		p := fr.i.p
@@ -176,7 +188,7 @@ func init() {
 			}
 			ms[i] = m
 		}
-		return tuple{p.newBig(p.pct(N, c.Mod(c.Add(ms[0], ms[1]), N))), iface{}}
+		return tuple{p.newBig(p.pct(N, p.plainRed(c.Add(ms[0], ms[1]), N))), iface{}}
 	}
 	optSummaries["(*"+pailPkg+".PrivateKey).Decrypt"] = func(fr *frame, a []value) value {
 		p := fr.i.p
